@@ -37,6 +37,8 @@ static int g_syslog = -1;            // raw log of the calls
 static bool g_hooks = false;
 static bool g_recovering = false;    // recovery phase: only the output that failed keeps failing (if persistent)
 static int g_fault_output = -1;      // index of the output whose write failed first
+static int g_rename_fail_at = 0;     // this rename is refused (EPERM, nothing renamed); 0 = never
+static int g_renames = 0;
 
 static bool tracked_fd(int fd, char* path, size_t cap) {
     char link[64];
@@ -129,6 +131,12 @@ extern "C" ssize_t writev(int fd, const struct iovec* iov, int cnt) {
 extern "C" int rename(const char* a, const char* b) {
     if (!g_hooks || strncmp(a, g_dir.c_str(), g_dir.size()) != 0) return syscall(SYS_rename, a, b);
     { bool r = g_recovering; g_recovering = true; bool p = g_fault_persistent; g_fault_persistent = false; before_call(a); g_recovering = r; g_fault_persistent = p; }   // a crash point; renames are not made to fail
+    if (g_rename_fail_at > 0 && ++g_renames == g_rename_fail_at) {
+        // the environment refuses this rename (sticky directory, a file system that cannot replace a file, ...)
+        syslog_line("rename", a, b, 0, "fail");
+        errno = EPERM;
+        return -1;
+    }
     int r = syscall(SYS_rename, a, b);
     // reference run: remember what became visible under the final name (one of the complete outputs of that name)
     long h = (r == 0 && !g_crash_at && !g_fault_at) ? content_hash(vh::read_file(b)) : 0;
@@ -314,6 +322,7 @@ static ChildResult run_child(const json& sc, const std::string& dir, int crash_a
         int apifd = ::open(al.c_str(), O_CREAT | O_WRONLY | O_TRUNC, 0600);
         g_crash_at = crash_at; g_fault_at = fault_at; g_fault_persistent = persistent; g_fault_kind = fkind;
         g_count = 0; g_hooks = true;
+        g_rename_fail_at = sc.value("rename_fail", 0); g_renames = 0;
         int devnull = ::open("/dev/null", O_WRONLY); dup2(devnull, 2);
         if (sc.value("unwind", false)) {
             // the whole session (construction, writes, rotations, destruction) runs inside a clean-up routine while an
